@@ -26,7 +26,7 @@ ASSUMPTIONS = [
     "calls made from generator bodies are ignored",
     "CPython reference counting finalises dropped generators immediately (a gc.collect() follows every drop)",
 ]
-BOUNDS = {"quick": {"depth": 5, "generators": "2 (1 for the two kinds that swallow exceptions)"}, "thorough": {"depth": 7, "generators": 2, "merge_audit_depth": 4}}
+BOUNDS = {"quick": {"depth": 5, "generators": "2 (1 for the two kinds that swallow exceptions)"}, "thorough": {"depth": 6, "generators": 2, "merge_audit_depth": 3}}
 
 SRC = '''
 def g(v):
